@@ -5,6 +5,7 @@ package main
 
 import (
 	"fmt"
+	"log/slog"
 	"strings"
 	"sync"
 	"sync/atomic"
@@ -37,6 +38,11 @@ type queueObs struct {
 	// storage with the queue)
 	mutated string
 }
+
+// slowSink is a log destination that takes its time.
+type slowSink struct{}
+
+func (slowSink) Write(p []byte) (int, error) { time.Sleep(200 * time.Microsecond); return len(p), nil }
 
 // multiObs: a history with several concurrent adders.
 type multiObs struct {
@@ -277,6 +283,12 @@ func init() {
 	// overtakes it (the queue's exported Lock/Unlock, when it has them)
 	opTable["queuemulti"] = func(t []string) *Obs {
 		cp, adders, per, readers, park := atoi(t[1]), atoi(t[2]), atoi(t[3]), atoi(t[4]), atoi(t[5])
+		if len(t) > 6 && t[6] == "debuglog" {
+			// the process-wide logger at debug level, writing to a slow sink, for the length of this op
+			old := slog.Default()
+			slog.SetDefault(slog.New(slog.NewTextHandler(slowSink{}, &slog.HandlerOptions{Level: slog.LevelDebug})))
+			defer slog.SetDefault(old)
+		}
 		q := circularQueue.NewCircularQueue(cp)
 		o := &multiObs{cap: cp, perReader: make([][]snap, readers)}
 		if queueDeadlocked != "" {
@@ -360,7 +372,7 @@ func init() {
 	props["C18"] = &Prop{
 		Rule: "op queuelong <cap> <n>: 70,000 (thorough 140,000) additions with snapshots around every power of two up to 2^17, one run of 1,100,000 (thorough 2,200,000); op queue <cap> a<id>… g…: operation sequences over capacities 1..8 — exhaustive add/snapshot interleavings to a bound (quick: length 8, thorough: 12) plus long runs far beyond the capacity — " +
 			"against the model and the last-N oracle; op queueconc: one adder and 1..4 snapshot readers on the real queue, every snapshot must be a contiguous run of the addition order ending between " +
-			"the adds completed before its invocation and the adds begun before its return, of the right length; op queuemulti: 2..4 concurrent adders and 1..3 readers, then rounds in which one adder waits at the queue's lock while another addition overtakes it - all snapshots must be windows of one addition order (no message with two different direct successors or predecessors, each reader's later window continues its earlier one, per-goroutine order kept, lengths between the additions completed and begun); non-trivial = more additions than the capacity; distinct = distinct op line",
+			"the adds completed before its invocation and the adds begun before its return, of the right length; op queuemulti: 2..4 concurrent adders and 1..3 readers (some runs with the process-wide logger at debug level on a slow sink), then rounds in which one adder waits at the queue's lock while another addition overtakes it - all snapshots must be windows of one addition order (no message with two different direct successors or predecessors, each reader's later window continues its earlier one, per-goroutine order kept, lengths between the additions completed and begun); non-trivial = more additions than the capacity; distinct = distinct op line",
 		Gen: func(c *Ctx, emit func(class, op string)) {
 			r := c.Rng
 			// exhaustive add/snapshot patterns up to a bound, capacities 1..8
@@ -414,6 +426,9 @@ func init() {
 			}
 			for i := 0; i < c.N(6, 40); i++ {
 				emit("concurrent-adders", fmt.Sprintf("queuemulti %d %d %d %d %d", 1+r.Intn(8), 2+r.Intn(3), 500+r.Intn(1500), 1+r.Intn(3), 40+r.Intn(60)))
+				if i%3 == 0 {
+					emit("concurrent-adders-debug-logging", fmt.Sprintf("queuemulti %d %d %d %d %d debuglog", 1+r.Intn(8), 2+r.Intn(3), 200+r.Intn(300), 1+r.Intn(3), 20))
+				}
 			}
 		},
 		Oracle: func(op string, ob *Obs) string {
